@@ -51,7 +51,7 @@ func init() {
 	// functions whose only effect visible to the verified code is a fresh result
 	for _, n := range []string{"fmt.Sprint", "fmt.Sprintf", "fmt.Sprintln", "fmt.Print", "fmt.Printf", "fmt.Println",
 		"encoding/hex.EncodeToString", "strconv.Itoa", "strconv.FormatInt", "strconv.FormatUint", "strings.Repeat",
-		"time.Now", "(time.Time).Unix", "(time.Time).UnixNano", "time.Since"} {
+		"time.Now", "time.(Time).Unix", "time.(Time).UnixNano", "time.(Time).Sub", "time.(Time).After", "time.(Time).Before", "time.(Time).Add", "time.(Duration).String", "sync/atomic.(*Bool).Load", "sync/atomic.(*Uint32).Load", "sync/atomic.(*Uint64).Load", "sync/atomic.(*Int32).Load", "sync/atomic.(*Int64).Load", "time.Since"} {
 		n := n
 		libModels[n] = func(tr *FnTr, x ssa.Value, args []Val, cc *ssa.CallCommon) Val {
 			tr.usedModel(n + " (fresh result, no effect on visible memory)")
